@@ -223,6 +223,26 @@ def body_larger(ctx, kind):
         ds = pipeline.builders.ugrid('fan9', fill='none', start_index=v)
     elif kind == 'mesh-sizes-3-to-7':
         ds = pipeline.builders.ugrid('poly34567', fill=('nan', 'attr')[v], start_index=v)
+    elif kind == 'mesh-spare-node-without-position':
+        # a node that no face uses and whose position is missing (as left behind by some mesh generators)
+        import numpy as _np
+        ds = pipeline.builders.ugrid('tqpx', fill=('nan', 'attr')[v], start_index=v)
+        used = {n_ for f in pipeline.builders.MESHES['tqpx'][1] for n_ in f}
+        spare = [n_ for n_ in range(len(pipeline.builders.MESHES['tqpx'][0])) if n_ not in used]
+        for name in ('node_x', 'node_y'):
+            vals = _np.array(ds[name].values, dtype=float)
+            vals[spare] = _np.nan
+            ds[name] = (ds[name].dims, vals, dict(ds[name].attrs))
+    elif kind == 'cf2d-three-of-four':
+        # no stored bounds; one isolated missing centre and a missing corner cell: corners with exactly three centres
+        import numpy as _np
+        nj, ni = 5, 5
+        jj, ii = _np.meshgrid(_np.arange(nj, dtype=float), _np.arange(ni, dtype=float), indexing='ij')
+        lat, lon = 10.0 + jj + 0.13 * ii, 100.0 + 2 * ii - 0.21 * jj + 0.05 * ii * jj
+        for (j, i) in (((2, 2),), ((2, 2), (4, 0)))[v]:
+            lat[j, i] = _np.nan
+            lon[j, i] = _np.nan
+        ds = pipeline.builders.cf2d(nj, ni, lat=lat, lon=lon)
     elif kind == 'mesh-5000-faces':
         n = 70 + v
         nodes = [(100.0 + 0.01 * i, -30.0 + 0.01 * j) for j in range(n + 1) for i in range(n + 1)]
@@ -240,7 +260,7 @@ def body_larger(ctx, kind):
 
 def cases(tier):
     q = tier == 'quick'
-    for kind in ('cf1d-65x64', 'cf2d-70x60', 'shoc-66x63', 'mesh-sizes-3-to-7', 'mesh-5000-faces', 'cf1d-257x256', 'mesh-9-and-12-nodes', 'mesh-fan-of-9'):
+    for kind in ('mesh-spare-node-without-position', 'cf2d-three-of-four', 'cf1d-65x64', 'cf2d-70x60', 'shoc-66x63', 'mesh-sizes-3-to-7', 'mesh-5000-faces', 'cf1d-257x256', 'mesh-9-and-12-nodes', 'mesh-fan-of-9'):
         yield Case(f'larger:{kind}', body_larger, dict(kind=kind), max_paths=4)
     PM = {m: pipeline.patches(m) for m in ('sandwich', 'all', 'rect')}
     cfgs = [
